@@ -1,10 +1,10 @@
 #!/bin/bash
-# run every seeded change against its property's check; writes seeded/MATRIX.txt
+# run seeded changes against their property's check; usage: tools/seedmatrix.sh [tier] [glob]   (default: quick, all)
 cd /verif
-TIER="${1:-quick}"
-OUT=seeded/MATRIX_$TIER.txt
+TIER="${1:-quick}"; GLOB="${2:-C*}"
+OUT=seeded/MATRIX_${TIER}_$(echo "$GLOB" | tr -c 'A-Za-z0-9\n' '_').txt
 : > $OUT
-for d in seeded/C*/; do
+for d in seeded/$GLOB/; do
   id=$(basename $d); prop=${id%-*}
   patch=$d/patch.diff; [ -f $d/patch_current.diff ] && patch=$d/patch_current.diff
   res=$(tools/mutcheck.sh $patch $prop $TIER 2>&1 | tail -1)
@@ -15,5 +15,3 @@ try:
 except Exception as ex: print('?')")
   echo "$id $res labels=$labels" | tee -a $OUT
 done
-# restore clean evidence
-for p in $(ls seeded | grep '^C' | sed 's/-.*//' | sort -u); do :; done
